@@ -48,6 +48,7 @@ InitW(cap) ==
     ovfFion |-> -1,        \* bytes in the kernel queue at the first observation after the overflow (queue full)
     room    |-> 0,         \* lower bound on the free slots of the kernel queue since then (from observed FIONREAD)
     readded |-> {},
+    uoInos  |-> {},        \* watched inodes whose path was unlinked while something keeps them alive (no DELETE_SELF yet)
     recursive |-> FALSE,   \* a recursive watch was added (C19)        \* paths added again after their watch ended or was re-pointed
     cap     |-> cap,
     postClose |-> 0,       \* events received after Close returned
@@ -101,8 +102,9 @@ RelaxAll(ws) == Relax(ws, {ws.exp[k].ino : k \in (ws.eh+1)..Len(ws.exp)})
 (* number.  The Watcher's own instance receives it iff it holds a mark on  *)
 (* that inode whose mask selects the event bit.                            *)
 
+\* (for "." and "/" filepath.Dir(p) = p: a watch is not its own parent)
 ParentState(ws, p) ==
-  LET S == ByPath(ws, Dir(p)) IN
+  LET S == IF Dir(p) = p THEN {} ELSE ByPath(ws, Dir(p)) IN
   IF S = {} THEN "none"
   ELSE IF \E i \in S : ws.uw[i].st = "live" THEN "live" ELSE "other"
 
@@ -260,7 +262,8 @@ RecvEv(ws0, v) ==
                   "phantom:" \o OpName(v.op))}
 
 RecvErr(ws, cls) ==
-  IF cls = "overflow"
+  IF "readfault" \in ws.flags /\ cls # "overflow" THEN Note([ws EXCEPT !.flags = @ \ {"readfault"}], "read_fault")   \* the injected read(2) failure is a genuine one
+  ELSE IF cls = "overflow"
   THEN IF ws.ovf THEN Note([ws EXCEPT !.gotOvf = @ + 1], "overflow")
        ELSE Bad(ws, {"C10"}, "overflow_without_cause")
   ELSE Bad(ws, {"C10"}, "spurious_error:" \o cls \o (IF "msgone" \in ws.flags THEN ":after_move_then_delete" ELSE ""))
@@ -285,6 +288,7 @@ Settle(ws) ==
       w1 == IF lost # <<>> /\ ~ws.fog /\ ws.phase = "open"
             THEN Bad(ws, {"C01"} \cup (IF lost[1].ino \in DOMAIN ws.uw /\ (ws.uw[lost[1].ino].st # "live" \/ ws.uw[lost[1].ino].path \in ws.readded)
                                        THEN {"C09"} ELSE {})
+                             \cup (IF lost[1].ino \in ws.uoInos THEN {"C09"} ELSE {})  \* the watch is kept until the last descriptor is closed
                              \cup (IF ws.ovf THEN {"C10"} ELSE {}),      \* after an overflow the watcher must keep delivering
                      "lost:" \o OpName(lost[1].op)) ELSE ws
       w2 == IF drop /\ ws.gotOvf = 0 /\ ws.phase = "open" /\ ~ws.fog
